@@ -46,7 +46,7 @@ func fsSafeForest(f model.Forest) {
 
 func runC06(c *Ctx) bool {
 	nMax := c.Pick(5, 6)
-	gen.ForEachLabeled(nMax, 2, []string{"a.go", "b"}, func(i int, f model.Forest) {
+	gen.ForEachLabeled(nMax, 2, ExtAlphabet, func(i int, f model.Forest) {
 		if !c.Mine(i) {
 			return
 		}
@@ -92,18 +92,18 @@ func evalC06(c *Ctx, cs *Case) {
 	r := gen.New(cs.Seed, 66)
 	doc := gen.Spell(f, gen.Canonical)
 	nontrivial := merged.Size() >= 2
-	extIdx := []int{0, 1, 2, 3, 4, 5, 6}
+	extIdx := allExt()
 	states := []int{tsEmpty, tsMissing, tsPopulated, tsDefaultCwd}
 	routes := []int{0, 1, 2, 3}
 	if cs.Kind != "exhaustive" {
-		extIdx = []int{r.Intn(7), r.Intn(7)}
+		extIdx = []int{r.Intn(len(ExtLists)), r.Intn(len(ExtLists))}
 		states = []int{r.Intn(numTS)}
 	} else if c.Quick() {
 		// rotate to keep the quick tier short; the thorough tier takes the full product
-		states = []int{int(cs.Seed%uint64(numTS)), int((cs.Seed+1)%uint64(numTS))}
+		states = []int{int(cs.Seed % uint64(numTS)), int((cs.Seed + 1) % uint64(numTS))}
 		routes = []int{0, 1, 2 + int(cs.Seed%uint64(2))}
-		e0 := int(cs.Seed%uint64(7))
-		extIdx = []int{e0, (e0 + 2) % 7, (e0 + 4) % 7}
+		e0 := int(cs.Seed % uint64(len(ExtLists)))
+		extIdx = []int{e0, (e0 + 3) % len(ExtLists), (e0 + 5) % len(ExtLists)}
 	}
 	for _, ei := range extIdx {
 		exts := ExtLists[ei]
